@@ -344,7 +344,9 @@ func FlagGrammar(s string) bool {
 
 // C04: a literal that the connection refuses (CheckBufferedLiteralFunc returns
 // an error) is a decoding error — no caller may go on and parse the announced
-// octets as something else.
+// octets as something else. Memory for the value is never reserved by the
+// announced size unless the connection's check admitted that size (a client
+// decoder has no check: the value grows only with the bytes that arrive).
 //
 //@ func (dec *Decoder) Literal(ptr *string) (result bool)
 //@   modifies ptr
@@ -352,7 +354,8 @@ func FlagGrammar(s string) bool {
 //@   callsite io.Copy(dst io.Writer, src io.Reader) requires dec.CheckBufferedLiteralFunc == nil || __called("CheckBufferedLiteralFunc")
 //@   ensures[C04] __called("CheckBufferedLiteralFunc") && __failed("CheckBufferedLiteralFunc") ==> !result && dec.err != nil
 //@   ensures[C04] __called("CheckBufferedLiteralFunc") && __failed("CheckBufferedLiteralFunc") && __resultBool("Decoder.LiteralReader", 1) ==> __called("Copy")
-//@   props C11:post
+//@   props C11:post,callsite
+//@   callsite Builder.Grow(b *strings.Builder, n int) requires __called("CheckBufferedLiteralFunc") && !__failed("CheckBufferedLiteralFunc")
 //@   ensures[C11] result && !(__called("CheckBufferedLiteralFunc") && __failed("CheckBufferedLiteralFunc")) ==> __called("Copy") && __result("Copy") == __result("LiteralReader.Size")
 
 
